@@ -69,7 +69,7 @@ W = "esutil/recfile/records.cpp"
 # rules that keep their verdict however the code is laid out: the C++ rules compare the trace of a bounded execution (calls into helpers
 # followed), the Python rules compare path summaries over terms (private helpers followed); a construct neither evaluator models gives
 # ok=None (no verdict), never a violation.  No rule of this check recognises its construct by statement shape any more.
-SEMANTIC = ('R04.1', 'R04.2', 'R04.3', 'R04.3n', 'R04.4', 'R04.5')
+SEMANTIC = ('R04.1', 'R04.2', 'R04.3', 'R04.3n', 'R04.4', 'R04.5', 'R04.6', 'R04.7', 'R04.8')
 
 
 def run(chk):
@@ -93,6 +93,7 @@ def run(chk):
     strings(chk, tu)
     delimiters(chk, tu, suffix)
     python_side(chk, repo, tu)
+    data_start(chk, repo, tu)
     # the converter used before a text write decides on every field with a byte order (shared rule with C16)
     from checks import C16
     C16.r16_6(chk, repo, rule="R04.3n", only="esutil.recfile.Util.to_native_inplace")
@@ -3064,6 +3065,8 @@ def python_side(chk, repo, tu=None):
     recfile_open(chk, repo)
     make_header(chk, repo)
     sfile_open(chk, repo)
+    read_back_unchanged(chk, repo)
+    text_row_count(chk, repo)
 
 
 # ---- the order strippers --------------------------------------------------------------------------------------------------------
@@ -4084,3 +4087,873 @@ def sfile_open(chk, repo):
     if not any(v is True for v in vs) or (empties and not read_ok):
         vs.append(None)                     # no path on which the rule was seen to hold: nothing was recognised
     chk.ob("R04.3", k, _verdict(vs), so.where(), m + ((" (%s)" % "; ".join(notes[:3])) if notes else ""))
+
+
+# ---- what the reader stored is what the caller gets (R04.6) -------------------------------------------------------------------------
+# The property is about the values that come back: "integers and strings exactly" -- strings with leading, embedded and trailing blanks,
+# empty strings included.  The C++ reader stores the bytes of the file as they are (R04.1 string::bytes-stored-unmodified); the Python
+# wrappers between it and the caller (Recfile.read -> SFile.read -> sfile.read) may select (rows, fields, split, reduce) but must not
+# rewrite.  Necessary condition, decided on the path terms: on every path that obtains an array from the reader object, (a) what is
+# returned derives from that array and no operation that maps some value to a different one (strip family, case folding, padding,
+# rounding, clipping, sorting ...) lies between the two, (b) after the read nothing is stored into the array or a view of it (a column
+# of split_fields, a field, a slice), and no in-place method rewrites it.  Located by data flow: the reader object is an attribute the
+# class assigns from Recfile(...) / Records(...) or an object made by such a call on the path; the array is the result of a read*
+# method of it or a fresh array handed to one.  Private helpers are followed, so where the statement stands does not matter.
+_READER_CLASSES = ("Recfile", "Records", "SFile", "Open")
+_VALUE_CHANGERS = frozenset((
+    "strip", "rstrip", "lstrip", "replace", "lower", "upper", "title", "capitalize", "swapcase", "casefold", "center", "ljust", "rjust", "zfill",
+    "expandtabs", "translate", "removeprefix", "removesuffix", "partition", "rpartition", "round", "around", "round_", "rint", "fix", "floor", "ceil",
+    "trunc", "clip", "nan_to_num", "abs", "absolute", "fabs", "negative", "sort", "sorted", "unique", "flip", "flipud", "roll", "reversed",
+    "maximum", "minimum", "fmax", "fmin", "cumsum", "diff"))
+_INPLACE_METHODS = frozenset(("sort", "fill", "put", "itemset", "partition", "setfield", "clip", "round"))
+_NUMPY_OVERWRITERS = frozenset(("copyto", "put", "place", "putmask", "put_along_axis"))
+
+
+def _term_kids(t):
+    return [x for x in list(t.args) + list(t.kw.values()) if x is not None]
+
+
+def _mentions(t, pred, seen=None):
+    """some sub-term of t satisfies pred; free names of a comprehension / lambda kept as source are looked up in the scope it was made in"""
+    if t is None:
+        return None
+    seen = seen if seen is not None else set()
+    if id(t) in seen:
+        return None
+    seen.add(id(t))
+    if pred(t):
+        return t
+    for x in _term_kids(t):
+        r = _mentions(x, pred, seen)
+        if r is not None:
+            return r
+    if t.op == "other" and t.node is not None and t.scope is not None and t.scope[1]:
+        for n in ast.walk(t.node):
+            if isinstance(n, ast.Name) and n.id in t.scope[1]:
+                r = _mentions(t.scope[1][n.id], pred, seen)
+                if r is not None:
+                    return r
+    return None
+
+
+def _derives(t, srcs):
+    return _mentions(t, lambda x: any(x is s for s in srcs)) is not None
+
+
+def _changer_on(t, srcs):
+    """text of a value-changing operation inside t that is applied to data of the reader, or None"""
+    hit = _mentions(t, lambda x: x.op == "call" and x.name in _VALUE_CHANGERS and any(_derives(a, srcs) for a in _term_kids(x)))
+    if hit is not None:
+        return _txt(hit)
+    hit = _mentions(t, lambda x: x.op == "other" and x.node is not None and _derives(x, srcs) and any(
+        isinstance(n, ast.Call) and (n.func.attr if isinstance(n.func, ast.Attribute) else getattr(n.func, "id", None)) in _VALUE_CHANGERS for n in ast.walk(x.node)))
+    return _txt(hit) if hit is not None else None
+
+
+def _reader_attrs(repo, fi):
+    """attributes of fi's class that hold a reader object: assigned somewhere in the class from Recfile(...) / Records(...) / Open(...)"""
+    out = set()
+    cls = fi.module.classes.get(fi.cls) if fi.cls else None
+    for n in (ast.walk(cls) if cls is not None else ()):
+        if isinstance(n, ast.Assign) and isinstance(n.value, ast.Call):
+            f = n.value.func
+            nm = f.attr if isinstance(f, ast.Attribute) else getattr(f, "id", None)
+            if nm in _READER_CLASSES:
+                out |= {t.attr for t in n.targets if isinstance(t, ast.Attribute) and isinstance(t.value, ast.Name) and t.value.id == "self"}
+    return out
+
+
+def _uses_attrs(node, attrs):
+    return any(isinstance(n, ast.Attribute) and n.attr in attrs and isinstance(n.value, ast.Name) and n.value.id == "self" for n in ast.walk(node))
+
+
+def _is_reader_object(v, attrs):
+    if v is None:
+        return False
+    if v.op == "attr" and v.name in attrs and v.args[0].op == "param" and v.args[0].name == "self":
+        return True
+    return v.op == "call" and v.name in _READER_CLASSES
+
+
+def _read_sources(st, attrs):
+    """[(index of the event, arrays)]: results of read* methods of a reader object and the fresh arrays handed to them"""
+    out = []
+    for i, e in enumerate(st.events):
+        if e[0] != "call":
+            continue
+        c = e[1]
+        if c.args[0] is None or not _is_reader_object(c.args[0], attrs) or not c.name.lower().startswith("read") or c.name.lower().startswith("read_header") \
+                or "header" in c.name.lower():
+            continue
+        out.append((i, [c] + [a for a in c.args[1:] if a is not None and a.op == "call"]))
+    return out
+
+
+def read_back_unchanged(chk, repo):
+    m = "what the record reader stored is returned as it is: nothing is stored into the array after the read and no value-changing operation lies between the reader and the caller"
+    for q in ("esutil.recfile.Util.Recfile.read", "esutil.recfile.Util.read", "esutil.sfile.SFile.read", "esutil.sfile.read"):
+        key = "%s::returns-the-reader's-values" % q.split("esutil.", 1)[1]
+        fi = repo.funcs.get(q)
+        if fi is None:
+            chk.ob("R04.6", key, None, "esutil", m + " [%s not found]" % q)
+            continue
+        chk.analysed_unit(fi.qualname)
+        attrs = _reader_attrs(repo, fi)
+        cls = fi.module.classes.get(fi.cls) if fi.cls else None
+        # helpers that never touch the reader object (argument checking, row / column bookkeeping) are not followed: nothing they do can rewrite its data
+        stop = set(_PY_STOP) | {n.name for n in (cls.body if cls is not None else ()) if isinstance(n, ast.FunctionDef) and not _uses_attrs(n, attrs)
+                                and not any(isinstance(x, ast.Call) and isinstance(x.func, ast.Attribute) and isinstance(x.func.value, ast.Name) and x.func.value.id == "self"
+                                            and x.func.attr.lower().startswith(("read", "_read", "_do_read")) for x in ast.walk(n))}
+        try:
+            px = _PX(repo, stop=stop)
+            res = px.run(fi)
+        except _Unrec as e:
+            chk.ob("R04.6", key, None, fi.where(), "%s [path evaluation of %s gave up: %s]" % (m, fi.name, e))
+            continue
+        for h in px.inlined:
+            chk.analysed_unit(h)
+        vs, notes = [], []
+        for status, ret, st in res:
+            if status not in ("fall", "return"):
+                continue
+            found = _read_sources(st, attrs)
+            if not found:
+                continue
+            first = min(i for i, _a in found)
+            srcs = [a for _i, arrs in found for a in arrs]
+            bad = None
+            for e in st.events[first + 1:]:
+                if e[0] == "store" and _derives(e[1], srcs) and not (e[1].op == "param"):
+                    ch = _changer_on(e[3], srcs)
+                    if ch is not None or e[3].op == "const":
+                        bad = "%s%s = %s is stored into the array the reader filled" % (_txt(e[1]), e[2] if e[4] is not None else "." + e[2], ch or _txt(e[3]))
+                        break
+                    vs.append(None)
+                    notes.append("a store into the reader's array after the read: %s%s = %s" % (_txt(e[1]), e[2], _txt(e[3])[:80]))
+                elif e[0] == "call":
+                    c = e[1]
+                    if c.args[0] is not None and c.name in _INPLACE_METHODS and _derives(c.args[0], srcs) and not _is_reader_object(c.args[0], attrs):
+                        bad = "%s rewrites the array the reader filled in place" % _txt(c)
+                        break
+                    if c.name in _NUMPY_OVERWRITERS and len(c.args) > 1 and c.args[1] is not None and _derives(c.args[1], srcs):
+                        bad = "%s overwrites the array the reader filled" % _txt(c)
+                        break
+            if bad is None:
+                ch = _changer_on(ret, srcs)
+                if ch is not None:
+                    bad = "the result passes through %s" % ch
+            if bad is not None:
+                vs.append(False)
+                notes.append(bad)
+            elif not _derives(ret, srcs):
+                vs.append(None)
+                notes.append("a path reads but returns %s" % _txt(ret)[:80])
+            else:
+                vs.append(True)
+        if not any(v is True for v in vs):
+            vs.append(None)
+            notes.append("no path on which the reader's array was seen to be returned")
+        chk.ob("R04.6", key, _verdict(vs), fi.where(), m + ((" (%s)" % "; ".join(notes[:3])) if notes else ""))
+
+
+# ---- every line of a text file is a row (R04.7) ---------------------------------------------------------------------------------------
+# The writer ends each row with one newline and a row may consist of blanks only (a table of string fields holding blank strings, with a
+# blank or tab delimiter or a single column), so when the number of rows is not given it is the number of lines after the offset, whatever
+# the lines contain.  Necessary condition on the function whose result Recfile.open stores as the row count, on its text paths: a pass of
+# the loop over the lines of the file adds exactly one to the count on every outcome of every test on the line; the equivalent spellings
+# len(f.readlines()), len(list(f)), sum(1 for line in f), f.read().count("\n") pass, a comprehension / generator with a filter on the line
+# does not.  Decided on the path terms (private helpers followed); a count that is put together differently gives no verdict.
+_FILE_OPENERS = ("open", "TextIOWrapper", "BufferedReader")
+
+
+def _file_derived(t, depth=0):
+    if t is None or depth > 6:
+        return False
+    if t.op == "call":
+        if t.name in _FILE_OPENERS:
+            return True
+        if t.name in ("iter", "enumerate", "list", "tuple") and t.args[0] is None and len(t.args) >= 2:
+            return _file_derived(t.args[1], depth + 1)
+        if t.name in ("readlines", "__iter__", "splitlines", "read") and t.args[0] is not None:
+            return _file_derived(t.args[0], depth + 1)
+    return False
+
+
+def _is_line(t):
+    return t.op == "elem" and bool(t.args) and _file_derived(t.args[0])
+
+
+def _int_value(t):
+    """the integer a term made of constants, + and - stands for, else None"""
+    if t is None:
+        return None
+    if t.op == "const":
+        return t.name if isinstance(t.name, int) and not isinstance(t.name, bool) else None
+    if t.op == "binop" and t.name in ("Add", "Sub") and len(t.args) == 2:
+        a, b = _int_value(t.args[0]), _int_value(t.args[1])
+        if a is None or b is None:
+            return None
+        return a + b if t.name == "Add" else a - b
+    return None
+
+
+def _comprehension_count(t):
+    """len([... for line in f ...]) / sum(1 for line in f ...): True when every line counts, False when a filter on the line drops some,
+    None when it is not such a count"""
+    if not (t.op == "call" and t.name in ("len", "sum") and t.args[0] is None and len(t.args) == 2 and not t.kw):
+        return None, ""
+    x = t.args[1]
+    if t.name == "len" and x.op == "call" and x.name in ("readlines", "list", "tuple", "splitlines"):
+        return (True if _file_derived(x) else None), ""
+    if x.op != "other" or not isinstance(x.node, (ast.ListComp, ast.GeneratorExp, ast.SetComp)) or len(x.node.generators) != 1:
+        return None, ""
+    if isinstance(x.node, ast.SetComp):
+        return None, ""
+    g = x.node.generators[0]
+    it = g.iter
+    env = x.scope[1] if x.scope and x.scope[1] else {}
+    src = env.get(it.id) if isinstance(it, ast.Name) else None
+    if src is None or not _file_derived(src):
+        return None, ""
+    if t.name == "sum" and not (isinstance(x.node.elt, ast.Constant) and x.node.elt.value == 1):
+        return None, ""
+    tnames = {n.id for n in ast.walk(g.target) if isinstance(n, ast.Name)}
+    for c in g.ifs:
+        if any(isinstance(n, ast.Name) and n.id in tnames for n in ast.walk(c)):
+            return False, "the filter `if %s` drops lines from the count" % norm(c)
+        return None, ""
+    return True, ""
+
+
+def _row_counter(repo, op):
+    """the method of the class whose result Recfile.open stores as the number of rows"""
+    for n in ast.walk(op.node):
+        if isinstance(n, ast.Assign) and isinstance(n.value, ast.Call) and isinstance(n.value.func, ast.Attribute) and isinstance(n.value.func.value, ast.Name) \
+                and n.value.func.value.id == "self" and any(isinstance(t, ast.Attribute) and t.attr == "nrows" for t in n.targets):
+            fi = repo.funcs.get("%s.%s.%s" % (op.module.name, op.cls, n.value.func.attr))
+            if fi is not None:
+                return fi
+    return repo.funcs.get("%s.%s._count_nrows" % (op.module.name, op.cls))
+
+
+def text_row_count(chk, repo):
+    m = "without nrows=, the number of rows of a text file is the number of lines after the offset, whatever the lines contain"
+    key = "Recfile::text-row-count-counts-every-line"
+    op = repo.func("esutil.recfile.Util.Recfile.open")
+    fi = _row_counter(repo, op)
+    if fi is None:
+        chk.ob("R04.7", key, None, op.where(), m + " [the function that counts the rows for Recfile.open was not found]")
+        return
+    paths = _paths(chk, repo, fi, [(key, m)], rule="R04.7")
+    if paths is None:
+        return
+    self_ = _V("param", "self")
+    vs, notes = [], []
+    base = None
+    rows = []
+    for ret, st in paths:
+        text = _fold(_V("cmp", "is not", [_V("attr", "delim", [self_]), _V("const", None)]), st)
+        if text is None:
+            text = _fold(_V("attr", "is_ascii", [self_]), st)
+        if text is False:
+            continue
+        entered = [v for v in st.env.values() if v is not None and _mentions(v, _is_line) is not None]
+        tests = [(t, b) for t, b in st.facts() if _mentions(t, _is_line) is not None]
+        rows.append((ret, st, bool(entered) or bool(tests), tests))
+        if not entered and not tests and _int_value(ret) is not None:
+            base = _int_value(ret) if base is None else min(base, _int_value(ret))
+    for ret, st, entered, tests in rows:
+        n = _int_value(ret)
+        if not entered:
+            if n is not None:
+                continue                          # no line was read on this path: the count of an empty file
+            r, why = _comprehension_count(ret)
+            if r is None and ret.op == "call" and ret.name == "count" and ret.args[0] is not None and _file_derived(ret.args[0]) and len(ret.args) == 2 \
+                    and ret.args[1].op == "const" and ret.args[1].name in ("\n", b"\n"):
+                r = True
+            vs.append(r)
+            if r is not True:
+                notes.append(why or "the count %s is not recognised" % _txt(ret)[:80])
+            continue
+        if n is None or base is None:
+            vs.append(None)
+            notes.append("after one line the count is %s" % _txt(ret)[:80])
+        elif n == base + 1:
+            vs.append(True)
+        elif tests:
+            vs.append(False)
+            notes.append("a line adds %d to the count when %s" % (n - base, " and ".join("%s(%s)" % ("" if b else "not ", _txt(t)) for t, b in tests[:2])))
+        else:
+            vs.append(False if n != base else None)
+            notes.append("a pass over one line adds %d to the count" % (n - base))
+    if not any(v is True for v in vs):
+        vs.append(None)
+        notes.append("no text path on which a line was seen to be counted")
+    chk.ob("R04.7", key, _verdict(vs), fi.where(), m + ((" (%s)" % "; ".join(notes[:3])) if notes else ""))
+
+
+# ---- where the rows begin (R04.8) -----------------------------------------------------------------------------------------------------
+# SFile hands the position at which the header ends to the record reader as the offset of the first row.  The first entry of the first
+# row may be a fixed-width string that begins with blanks or tabs, and a binary row may begin with any byte, so the offset cannot depend
+# on what follows the header: necessary condition, the position Records::read_sfile_header returns is (position just after the END line)
+# + a constant, and the constant is the number of bytes the writer (SFile._write_header) puts after the END line.  Decided by an abstract
+# interpretation of the function over the domain {integer, M + k, depends-on-the-bytes-read, unknown}, M being the stream position right
+# after the marker was matched: the loop that reads the stream one byte per pass and leaves on a comparison with a literal containing END
+# is the marker loop (a variable it increments once per pass is M + its start value); after it rewind / fseek / fread / fgetc / ungetc /
+# ftell move and report the position by their C meaning; a loop or branch whose test depends on bytes read makes everything it assigns,
+# and the position if it reads, data-dependent; paths that end in a throw are error paths (stdio is assumed to succeed).  A position that
+# is data-dependent, or M + k with the wrong k, is a violation; anything the interpretation does not model gives no verdict.
+_BYTE_READERS = ("fgetc", "getc", "getc_unlocked", "fgetc_unlocked")
+_DATA_READERS = ("fgets", "fscanf", "vfscanf", "getline", "getdelim", "fgetws", "fgetwc", "getw")
+_SEEKERS = ("fseek", "fseeko", "fseeko64", "myfseeko", "rewind", "fsetpos")
+_TELLERS = ("ftell", "ftello", "ftello64", "myftello")
+_CMP_CALLS = ("strncmp", "strcmp", "memcmp", "compare", "operator==", "operator!=", "strstr", "find", "rfind", "equal", "ends_with")
+_INT_FORMATS = "ilnkKLIhHbB"
+_DEP = "DATA"
+
+
+def _ab_add(a, b, sign=1):
+    if a is None or b is None:
+        return None
+    if a == _DEP or b == _DEP:
+        return _DEP
+    if isinstance(a, int) and isinstance(b, int):
+        return a + sign * b
+    if isinstance(a, tuple) and isinstance(b, int):
+        return ("M", a[1] + sign * b)
+    if isinstance(a, int) and isinstance(b, tuple) and sign == 1:
+        return ("M", a + b[1])
+    if isinstance(a, tuple) and isinstance(b, tuple) and sign == -1:
+        return a[1] - b[1]
+    return None
+
+
+def _ab_show(v):
+    if v == _DEP:
+        return "a value that depends on the bytes read"
+    if isinstance(v, tuple) and v[0] == "M":
+        return "the end of the END line + %d" % v[1]
+    return "unknown" if v is None else str(v)
+
+
+def _local_var(n):
+    n = cfront.strip(n)
+    rd = n.get("referencedDecl") or {}
+    if n.get("kind") == "DeclRefExpr" and rd.get("kind") in ("VarDecl", "ParmVarDecl"):
+        return rd.get("name")
+    return None
+
+
+def _nested_free(n, stop=("WhileStmt", "ForStmt", "DoStmt", "SwitchStmt", "LambdaExpr")):
+    """the nodes of n that are not inside a nested loop / switch"""
+    todo = [n]
+    while todo:
+        x = todo.pop()
+        if isinstance(x, dict) and x.get("kind"):
+            yield x
+            for c in reversed(_kids(x)):
+                if c.get("kind") not in stop:
+                    todo.append(c)
+
+
+class _PosEval:
+    def __init__(self, funcs, body):
+        self.funcs, self.body = funcs, body
+        self.env, self.pos, self.why, self.returns = {}, None, None, []
+
+    # -- state ---------------------------------------------------------------------
+    def snap(self):
+        return dict(self.env), self.pos
+
+    def restore(self, s):
+        self.env, self.pos = dict(s[0]), s[1]
+
+    def taint(self, n, what):
+        if self.why is None:
+            self.why = "%s at line %s: %s" % (what, n.get("line", "?"), cfront.render(n)[:120])
+
+    def join(self, a, b, data_dep, n):
+        """the state after a two-way branch whose arms leave a and b; None arms ended in a throw / return"""
+        if a is None or b is None:
+            live = a if b is None else b
+            if live is not None:
+                self.restore(live)
+            return live is not None
+        env = {}
+        for k in set(a[0]) | set(b[0]):
+            x, y = a[0].get(k), b[0].get(k)
+            if x == y and (k in a[0]) == (k in b[0]):
+                env[k] = x
+            else:
+                env[k] = _DEP if (data_dep or _DEP in (x, y)) else None
+                if env[k] == _DEP:
+                    self.taint(n, "a test on the bytes read decides the value of `%s`" % k)
+        pos = a[1] if a[1] == b[1] else (_DEP if (data_dep or _DEP in (a[1], b[1])) else None)
+        if pos == _DEP and a[1] != b[1]:
+            self.taint(n, "a test on the bytes read decides how far the stream is read")
+        self.env, self.pos = env, pos
+        return True
+
+    # -- expressions ---------------------------------------------------------------------
+    def ev(self, n):
+        n = cfront.strip(n)
+        k = n.get("kind")
+        ks = _kids(n)
+        if k in ("IntegerLiteral", "CharacterLiteral"):
+            try:
+                return int(n.get("value"))
+            except (TypeError, ValueError):
+                return None
+        if k == "CXXBoolLiteralExpr":
+            return int(bool(n.get("value")))
+        if k == "DeclRefExpr":
+            v = _local_var(n)
+            return self.env.get(v) if v is not None else None
+        if k == "UnaryOperator":
+            op = n.get("opcode")
+            if op in ("++", "--"):
+                v = _local_var(ks[0])
+                old = self.env.get(v) if v else None
+                new = _ab_add(old, 1, 1 if op == "++" else -1)
+                if v:
+                    self.env[v] = new
+                else:
+                    self.ev(ks[0])
+                return old if n.get("isPostfix") else new
+            if op == "&":
+                return None
+            x = self.ev(ks[0])
+            if op == "-" and isinstance(x, int):
+                return -x
+            if op == "+":
+                return x
+            return _DEP if x == _DEP else None
+        if k == "BinaryOperator":
+            op = n.get("opcode")
+            if op == "=":
+                x = self.ev(ks[1])
+                v = _local_var(ks[0])
+                if v:
+                    self.env[v] = x
+                else:
+                    self.ev(ks[0])
+                return x
+            if op in ("&&", "||"):
+                a = self.ev(ks[0])
+                s0 = self.snap()
+                b = self.ev(ks[1])
+                s1 = self.snap()
+                if s0 != s1:
+                    self.join(s0, s1, a == _DEP, n)
+                return _DEP if _DEP in (a, b) else None
+            a, b = self.ev(ks[0]), self.ev(ks[1])
+            if op == ",":
+                return b
+            if op in ("+", "-"):
+                return _ab_add(a, b, 1 if op == "+" else -1)
+            if op == "*":
+                if isinstance(a, int) and isinstance(b, int):
+                    return a * b
+                if a == 1:
+                    return b
+                if b == 1:
+                    return a
+            return _DEP if _DEP in (a, b) else None
+        if k == "CompoundAssignOperator":
+            op = n.get("opcode")
+            x = self.ev(ks[1])
+            v = _local_var(ks[0])
+            cur = self.env.get(v) if v else None
+            new = _ab_add(cur, x, 1 if op == "+=" else -1) if op in ("+=", "-=") else (_DEP if _DEP in (cur, x) else None)
+            if v:
+                self.env[v] = new
+            else:
+                self.ev(ks[0])
+            return new
+        if k == "ConditionalOperator":
+            c = self.ev(ks[0])
+            s0 = self.snap()
+            a = self.ev(ks[1])
+            sa = self.snap()
+            self.restore(s0)
+            b = self.ev(ks[2])
+            sb = self.snap()
+            self.join(sa, sb, c == _DEP, n)
+            return a if a == b else (_DEP if (c == _DEP or _DEP in (a, b)) else None)
+        if k in ("CallExpr", "CXXMemberCallExpr", "CXXOperatorCallExpr"):
+            return self.call(n)
+        if k == "CXXThrowExpr":
+            raise _Throw()
+        vals = [self.ev(c) for c in ks if c.get("kind") not in ("CompoundStmt", "DeclStmt")]
+        return _DEP if _DEP in vals and k in ("ArraySubscriptExpr",) else None
+
+    def mentions_stream(self, n):
+        return any("FILE" in _qt(x) for x in cfront.walk(n) if x.get("kind") in ("MemberExpr", "DeclRefExpr"))
+
+    def call(self, n):
+        name = cfront.callee_name(n) or ""
+        args = cfront.call_args(n)
+        k = n.get("kind")
+        if name in _BYTE_READERS:
+            self.pos = _ab_add(self.pos, 1)
+            return _DEP
+        if name == "ungetc":
+            self.ev(args[0])
+            self.pos = _ab_add(self.pos, -1)
+            return None
+        if name in ("fread", "fread_unlocked") and len(args) == 4:
+            size, cnt = self.ev(args[1]), self.ev(args[2])
+            adv = cnt if size == 1 else (size if cnt == 1 else (size * cnt if isinstance(size, int) and isinstance(cnt, int) else (_DEP if _DEP in (size, cnt) else None)))
+            self.pos = _ab_add(self.pos, adv)
+            if adv == _DEP:
+                self.taint(n, "the number of bytes read depends on the bytes read before")
+            return cnt                      # stdio succeeds: every item asked for is read
+        if name in _DATA_READERS:
+            self.pos = _DEP if self.pos is not None else None
+            self.taint(n, "%s consumes a number of bytes that depends on what they are" % name)
+            for a in args:
+                v = _local_var(cfront.strip(a).get("inner", [{}])[0]) if cfront.strip(a).get("kind") == "UnaryOperator" else None
+                if v:
+                    self.env[v] = _DEP
+            return _DEP
+        if name in _SEEKERS:
+            if name == "rewind":
+                self.pos = 0
+            elif name == "fsetpos" or len(args) < 3:
+                self.pos = None
+            else:
+                off, wh = self.ev(args[1]), self.ev(args[2])
+                self.pos = off if wh == 0 else (_ab_add(self.pos, off) if wh == 1 else None)
+            return 0
+        if name in _TELLERS:
+            return self.pos
+        vals = [self.ev(a) for a in args]
+        if name == "Py_BuildValue" and args:
+            fmt = c_string_literal(args[0])
+            if fmt is not None:
+                letters = [c for c in fmt if c.isalpha()]
+                if "#" not in fmt and len(letters) == len(args) - 1:
+                    nums = [v for c, v in zip(letters, vals[1:]) if c in _INT_FORMATS]
+                    return ("ret", nums[0] if len(nums) == 1 else None)
+            return ("ret", None)
+        if k == "CXXMemberCallExpr":
+            obj = cfront.strip(n["inner"][0])
+            base = cfront.strip(_kids(obj)[0]) if obj.get("kind") == "MemberExpr" and _kids(obj) else None
+            if base is None or base.get("kind") == "CXXThisExpr":
+                d = self.funcs.get("Records::" + name) or self.funcs.get(name)
+                if d is None or any((cfront.callee_name(c) or "") in _BYTE_READERS + _DATA_READERS + _SEEKERS + ("fread", "ungetc") or self.mentions_stream(c)
+                                    for c in cfront.walk(d) if c.get("kind") in ("CallExpr", "CXXMemberCallExpr")):
+                    self.pos = None
+            else:
+                v = _local_var(base)
+                if v and name not in ("size", "length", "c_str", "data", "empty", "compare", "find", "rfind", "substr", "at", "back", "front", "capacity"):
+                    self.env[v] = None
+            return _DEP if (_DEP in vals and name in ("compare", "find", "rfind")) else None
+        if k == "CXXOperatorCallExpr":
+            v = _local_var(args[0]) if args else None
+            if v and name in ("operator=", "operator+=", "operator<<", "operator>>"):
+                self.env[v] = None
+            return _DEP if _DEP in vals else None
+        if any(self.mentions_stream(a) for a in args) and not name.startswith(("feof", "ferror", "clearerr", "fflush", "fileno")):
+            self.pos = None
+        for a in args:                      # &local handed to an unknown function
+            s = cfront.strip(a)
+            if s.get("kind") == "UnaryOperator" and s.get("opcode") == "&" and _local_var(_kids(s)[0]):
+                self.env[_local_var(_kids(s)[0])] = None
+        return _DEP if _DEP in vals else None
+
+    # -- statements ---------------------------------------------------------------------
+    def run(self, stmts):
+        """False when the sequence ends in a throw / return on every path"""
+        for s in stmts:
+            if not self.stmt(s):
+                return False
+        return True
+
+    def stmt(self, n):
+        k = n.get("kind")
+        ks = _kids(n)
+        if k == "CompoundStmt":
+            return self.run(ks)
+        if k == "DeclStmt":
+            for d in ks:
+                if d.get("kind") == "VarDecl":
+                    init = [c for c in _kids(d)]
+                    self.env[d.get("name")] = self.ev(init[-1]) if init and init[-1].get("kind") not in ("InitListExpr", "CXXConstructExpr") else None
+            return True
+        if k == "IfStmt":
+            c = self.ev(ks[0])
+            s0 = self.snap()
+            a = self.snap() if self.arm(ks[1]) else None
+            self.restore(s0)
+            b = self.snap() if (len(ks) < 3 or self.arm(ks[2])) else None
+            return self.join(a, b, c == _DEP, ks[0])
+        if k in ("WhileStmt", "ForStmt", "DoStmt"):
+            return self.loop(n)
+        if k == "ReturnStmt":
+            v = self.ev(ks[0]) if ks else None
+            self.returns.append((v[1] if isinstance(v, tuple) and v[0] == "ret" else None, n))
+            return False
+        if k == "CXXTryStmt":
+            return self.arm(ks[0])
+        if k in ("NullStmt", "BreakStmt", "ContinueStmt"):
+            return True
+        if k in ("SwitchStmt", "GotoStmt", "LabelStmt", "CaseStmt", "DefaultStmt"):
+            raise _CUnrec("%s at line %s" % (k, n.get("line")))
+        try:
+            self.ev(n)
+        except _Throw:
+            return False
+        return True
+
+    def arm(self, n):
+        try:
+            return self.stmt(n)
+        except _Throw:
+            return False
+
+    def loop(self, n):
+        assigned = set()
+        for x in cfront.walk(n):
+            kk = x.get("kind")
+            if (kk == "BinaryOperator" and x.get("opcode") == "=") or kk == "CompoundAssignOperator" or (kk == "UnaryOperator" and x.get("opcode") in ("++", "--")):
+                v = _local_var(_kids(x)[0])
+                if v:
+                    assigned.add(v)
+            elif kk == "CXXOperatorCallExpr" and cfront.call_args(x):
+                v = _local_var(cfront.call_args(x)[0])
+                if v and (cfront.callee_name(x) or "") in ("operator=", "operator+=", "operator<<", "operator>>"):
+                    assigned.add(v)
+            elif kk == "CXXMemberCallExpr":
+                obj = cfront.strip(x["inner"][0])
+                v = _local_var(_kids(obj)[0]) if obj.get("kind") == "MemberExpr" and _kids(obj) else None
+                if v:
+                    assigned.add(v)
+        calls = [cfront.callee_name(c) or "" for c in cfront.walk(n) if c.get("kind") in ("CallExpr", "CXXMemberCallExpr")]
+        moves = [c for c in calls if c in _BYTE_READERS + _DATA_READERS + _SEEKERS + ("fread", "fread_unlocked", "ungetc")] or \
+            [c for c in cfront.walk(n) if c.get("kind") == "CXXMemberCallExpr" and cfront.strip(_kids(cfront.strip(c["inner"][0]))[0] if _kids(cfront.strip(c["inner"][0])) else {}).get("kind") == "CXXThisExpr"]
+        # does leaving the loop depend on bytes read?  one abstract pass over the test and the body, on a scratch state
+        s0, why0, ret0 = self.snap(), self.why, list(self.returns)
+        dep = False
+        ks = _kids(n)
+        cond = ks[0] if n.get("kind") == "WhileStmt" else (ks[1] if n.get("kind") == "DoStmt" else None)
+        body = ks[-1] if n.get("kind") != "DoStmt" else ks[0]
+        if n.get("kind") == "ForStmt":
+            inner = [c for c in (n.get("inner") or [])]
+            cond = inner[2] if len(inner) >= 5 and isinstance(inner[2], dict) and inner[2].get("kind") else None
+            if len(inner) >= 5 and isinstance(inner[0], dict) and inner[0].get("kind"):
+                self.arm(inner[0])
+        try:
+            if cond is not None and n.get("kind") != "DoStmt":
+                dep = self.ev(cond) == _DEP
+            self.arm(body)
+            for x in _nested_free(body):
+                if x.get("kind") == "IfStmt" and any(y.get("kind") in ("BreakStmt", "ReturnStmt", "GotoStmt") for y in _nested_free(x)):
+                    s1 = self.snap()
+                    if self.ev(_kids(x)[0]) == _DEP:
+                        dep = True
+                    self.restore(s1)
+            if cond is not None and self.ev(cond) == _DEP:
+                dep = True
+        except (_Throw, _CUnrec):
+            pass
+        self.restore(s0)
+        self.why, self.returns = why0, ret0
+        if dep:
+            self.taint(cond if cond is not None else n, "a loop whose end depends on the bytes read")
+        for v in assigned:
+            self.env[v] = _DEP if dep else None
+        if moves:
+            self.pos = _DEP if dep else None
+        return True
+
+
+def _marker_literal(n, body):
+    """the text of a string literal containing END that the call n compares with: written in place, or the initialiser of a local it names"""
+    for a in cfront.call_args(n):
+        for x in cfront.walk(a):
+            s = None
+            if x.get("kind") == "StringLiteral":
+                s = c_string_literal(x)
+            elif x.get("kind") == "DeclRefExpr" and _local_var(x):
+                for d in cfront.walk(body):
+                    if d.get("kind") == "VarDecl" and d.get("name") == _local_var(x):
+                        lits = [c_string_literal(y) for y in cfront.walk(d) if y.get("kind") == "StringLiteral"]
+                        s = lits[0] if len(lits) == 1 else None
+            if s and "END" in s:
+                return s
+    return None
+
+
+def _writer_tail(repo):
+    """the text SFile._write_header puts after the letters END, or None when the header text is put together in a way that is not recognised"""
+    fi = repo.funcs.get("esutil.sfile.SFile._write_header")
+    if fi is None:
+        return None
+    try:
+        res = _PX(repo, stop=_PY_STOP).run(fi)
+    except _Unrec:
+        return None
+
+    def pieces(t):
+        if t.op == "binop" and t.name == "Add":
+            return [p for x in t.args for p in pieces(x)]
+        return [t]
+
+    tails = set()
+    for status, ret, st in res:
+        for e in st.events:
+            if e[0] != "call" or e[1].name != "write_header_and_update_offset" or len(e[1].args) < 2:
+                continue
+            t = e[1].args[1]
+            tail = None
+            if t.op == "call" and t.name == "join" and t.args[0] is not None and t.args[0].op == "const" and isinstance(t.args[0].name, str) and len(t.args) == 2 \
+                    and t.args[1].op == "seq" and t.args[1].name in ("list", "tuple"):
+                el = t.args[1].args
+                idx = [i for i, x in enumerate(el) if x.op == "const" and isinstance(x.name, str) and "END" in x.name]
+                if idx and all(x.op == "const" and isinstance(x.name, str) for x in el[idx[-1]:]):
+                    tail = el[idx[-1]].name.rsplit("END", 1)[1] + "".join(t.args[0].name + x.name for x in el[idx[-1] + 1:])
+            elif t.op == "binop" and t.name == "Mod" and t.args[0].op == "const" and isinstance(t.args[0].name, str) and "END" in t.args[0].name:
+                x = t.args[0].name.rsplit("END", 1)[1]
+                tail = x if "%" not in x else None
+            elif t.op == "call" and t.name == "format" and t.args[0] is not None and t.args[0].op == "const" and isinstance(t.args[0].name, str) and "END" in t.args[0].name:
+                x = t.args[0].name.rsplit("END", 1)[1]
+                tail = x if "{" not in x else None
+            elif t.op == "other" and isinstance(t.node, ast.JoinedStr):
+                vals = t.node.values
+                idx = [i for i, x in enumerate(vals) if isinstance(x, ast.Constant) and isinstance(x.value, str) and "END" in x.value]
+                if idx and all(isinstance(x, ast.Constant) for x in vals[idx[-1]:]):
+                    tail = vals[idx[-1]].value.rsplit("END", 1)[1] + "".join(x.value for x in vals[idx[-1] + 1:])
+            else:
+                ps = pieces(t)
+                idx = [i for i, x in enumerate(ps) if x.op == "const" and isinstance(x.name, str) and "END" in x.name]
+                if idx and all(x.op == "const" and isinstance(x.name, str) for x in ps[idx[-1]:]):
+                    tail = ps[idx[-1]].name.rsplit("END", 1)[1] + "".join(x.name for x in ps[idx[-1] + 1:])
+            tails.add(tail)
+    return tails.pop() if len(tails) == 1 else None
+
+
+def data_start(chk, repo, tu):
+    m = "the offset of the first row is the end of the header's END line plus the bytes the writer puts after it, whatever the first row begins with"
+    key = "read_sfile_header::data-offset-independent-of-the-data"
+    d = tu.funcs.get("Records::read_sfile_header")
+    if d is None:
+        chk.ob("R04.8", key, None, W, m + " [Records::read_sfile_header not found]")
+        return
+    chk.analysed_unit("Records::read_sfile_header")
+    body = cfront.body_of(d)
+    where = "%s:%s" % (W, d.get("line", body.get("line", 0)))
+    stmts = _kids(body)
+    # the marker loop: first loop at the top level of the body that compares with a literal containing END
+    li = marker = None
+    for i, s in enumerate(stmts):
+        if s.get("kind") in ("WhileStmt", "ForStmt", "DoStmt"):
+            cmps = [(c, _marker_literal(c, body)) for c in cfront.walk(s) if c.get("kind") in ("CallExpr", "CXXMemberCallExpr", "CXXOperatorCallExpr")
+                    and (cfront.callee_name(c) or "") in _CMP_CALLS]
+            cmps = [(c, t) for c, t in cmps if t]
+            if cmps:
+                li, marker = i, cmps
+                break
+    if li is None:
+        chk.ob("R04.8", key, None, where, m + " [no loop that compares what it reads with a literal containing END was found at the top level of the function]")
+        return
+    loop = stmts[li]
+    texts = {t for _c, t in marker}
+    cmp_ids = {id(c) for c, _t in marker}
+    px = _PosEval(tu.funcs, body)
+    try:
+        if not px.run(stmts[:li]):
+            raise _CUnrec("the function ends before the marker loop")
+        pos0 = px.pos
+        # one byte per pass, read unconditionally; the loop is left only where the marker compares equal
+        lk = _kids(loop)
+        lbody = lk[-1] if loop.get("kind") != "DoStmt" else lk[0]
+        top = _kids(lbody) if lbody.get("kind") == "CompoundStmt" else [lbody]
+        reads_all = [c for c in cfront.walk(loop) if c.get("kind") in ("CallExpr", "CXXMemberCallExpr")
+                     and (cfront.callee_name(c) or "") in _BYTE_READERS + _DATA_READERS + _SEEKERS + ("fread", "fread_unlocked", "ungetc")]
+        plain = [s for s in top if s.get("kind") not in ("IfStmt", "WhileStmt", "ForStmt", "DoStmt", "SwitchStmt", "CXXTryStmt")]
+        reads_top = [c for s in plain for c in cfront.walk(s) if any(c is r for r in reads_all)]
+        if len(texts) != 1 or len(reads_all) != 1 or len(reads_top) != 1 or (cfront.callee_name(reads_all[0]) or "") not in _BYTE_READERS:
+            raise _CUnrec("the marker loop does not read the stream one byte per pass in a way that is recognised")
+        has_marker = lambda x: any(id(y) in cmp_ids for y in cfront.walk(x))          # noqa: E731
+        flags = set()
+        for x in cfront.walk(loop):
+            if x.get("kind") == "BinaryOperator" and x.get("opcode") == "=" and _local_var(_kids(x)[0]) and has_marker(_kids(x)[1]):
+                flags.add(_local_var(_kids(x)[0]))
+        exit_at = None
+        for i, s in enumerate(top):
+            for y in _nested_free(s):
+                if y.get("kind") in ("ReturnStmt", "GotoStmt"):
+                    raise _CUnrec("the marker loop is left by a %s" % y.get("kind"))
+                if y.get("kind") == "BreakStmt":
+                    if not (s.get("kind") == "IfStmt" and has_marker(_kids(s)[0])) or exit_at is not None:
+                        raise _CUnrec("the marker loop is left by a break that does not hang on the comparison with the marker")
+                    exit_at = i
+        cond = lk[0] if loop.get("kind") == "WhileStmt" else (lk[1] if loop.get("kind") == "DoStmt" else None)
+        if loop.get("kind") == "ForStmt":
+            inner = loop.get("inner") or []
+            cond = inner[2] if len(inner) >= 5 and isinstance(inner[2], dict) and inner[2].get("kind") else None
+        cvars = {_local_var(x) for x in cfront.walk(cond) if _local_var(x)} if cond is not None else set()
+        const_true = cond is None or (cfront.strip(cond).get("kind") in ("IntegerLiteral", "CXXBoolLiteralExpr") and px.ev(cond) not in (0, None))
+        if not const_true and not (cvars and cvars <= flags):
+            raise _CUnrec("the test of the marker loop is not recognised")
+        if const_true and exit_at is None:
+            raise _CUnrec("no exit of the marker loop was found")
+        # counters: incremented by one, once, unconditionally, at the top level of the body
+        changed = {}
+        for x in cfront.walk(loop):
+            kk = x.get("kind")
+            v = None
+            if (kk == "BinaryOperator" and x.get("opcode") == "=") or kk == "CompoundAssignOperator" or (kk == "UnaryOperator" and x.get("opcode") in ("++", "--")):
+                v = _local_var(_kids(x)[0])
+            elif kk == "CXXOperatorCallExpr" and cfront.call_args(x):
+                v = _local_var(cfront.call_args(x)[0])
+            if v:
+                changed.setdefault(v, []).append(x)
+        for x in cfront.walk(loop):
+            if x.get("kind") == "CXXMemberCallExpr":
+                obj = cfront.strip(x["inner"][0])
+                base = _local_var(_kids(obj)[0]) if obj.get("kind") == "MemberExpr" and _kids(obj) else None
+                if base:
+                    changed.setdefault(base, []).append(None)
+        for v, sites in changed.items():
+            new = None
+            if len(sites) == 1 and sites[0] is not None and isinstance(pos0, int):
+                x = sites[0]
+                one = (x.get("kind") == "UnaryOperator" and x.get("opcode") == "++") or \
+                    (x.get("kind") == "CompoundAssignOperator" and x.get("opcode") == "+=" and _PosEval(tu.funcs, body).ev(_kids(x)[1]) == 1)
+                at = [i for i, s in enumerate(top) if cfront.strip(s) is x or (s.get("kind") not in ("IfStmt", "WhileStmt", "ForStmt", "DoStmt") and cfront.strip(s) is x)]
+                if one and at and isinstance(px.env.get(v), int):
+                    late = exit_at is not None and at[0] > exit_at
+                    new = ("M", px.env[v] - pos0 - (1 if late else 0))
+            px.env[v] = new
+        px.pos = ("M", 0)
+        px.run(stmts[li + 1:])
+    except _CUnrec as e:
+        chk.ob("R04.8", key, None, where, "%s [%s]" % (m, e))
+        return
+    except _Throw:
+        chk.ob("R04.8", key, None, where, m + " [the function throws unconditionally after the marker loop]")
+        return
+    offs = [v for v, _n in px.returns]
+    wt = _writer_tail(repo)
+    tail = wt if wt is not None else "\n\n"
+    after = texts.pop().rsplit("END", 1)[1]
+    src = "SFile._write_header writes %r after END" % tail if wt is not None else "the documented format has END and one empty line"
+    if not tail.startswith(after):
+        chk.ob("R04.8", key, False, where, "%s (the reader looks for END followed by %r, but %s)" % (m, after, src))
+        return
+    want = len(tail) - len(after)
+    if not offs or any(v is None for v in offs):
+        chk.ob("R04.8", key, None, where, m + " [the returned offset is not recognised: %s]" % [_ab_show(v) for v in offs])
+        return
+    bad = [v for v in offs if v == _DEP or not (isinstance(v, tuple) and v[0] == "M" and v[1] == want)]
+    if bad:
+        v = bad[0]
+        if v == _DEP:
+            msg = "the returned offset depends on the bytes that follow the END line: %s" % (px.why or "?")
+        else:
+            msg = "the returned offset is %s, but %s, %d byte(s) after the marker %r" % (_ab_show(v), src, want, "END" + after)
+        chk.ob("R04.8", key, False, where, "%s (%s)" % (m, msg))
+        return
+    chk.ob("R04.8", key, True, where, "%s (offset = %s; %s)" % (m, _ab_show(offs[0]), src))
